@@ -115,7 +115,7 @@ def run(v) -> None:
     ops4 = [("dm", t) for t in range(4)] + [("period", t) for t in range(5)]
     for _ in range(60 if quick else 600):
         hists.append([rng.choice(ops4) for _ in range(rng.randrange(4, 13))])
-    shapes = [(3, 4, 16), (2, 2, 8)] if quick else [(3, 4, 16), (2, 2, 8), (4, 8, 32), (1, 4, 16), (5, 1, 16)]
+    shapes = [(3, 4, 16), (2, 2, 8), (3, 1, 8)] if quick else [(3, 4, 16), (2, 2, 8), (4, 8, 32), (1, 4, 16), (5, 1, 16)]
     specs = [{"id": i, "shapes": shapes, "hists": hists[i::14]} for i in range(14)]
     traces = [t for r in pool.pmap(job, specs, workers=14) for t in r]
     for t in traces:
